@@ -1,9 +1,25 @@
 import Dnp3.Model.OutstationTrace
+import Dnp3.Proofs.OutstationC14
 /-!
 # C14 — Unsolicited reporting obeys the start-up, enable, retry and deferral rules
+
+Theorems over the outstation session model for ALL states / inputs / histories; the database is
+opaque in every proof (`Dnp3.Proofs.OutstationC14`).  Restated verbatim; the definitions used in the
+statements (`NullInv`, `StepFrag`, `IsUnsolConfirm`, `IsDisable`, `NotUW`, `AnswerIn`, `Ev`, …) are
+in `Dnp3.Proofs.OutstationSkel` / `OutstationC14`.
+
+* `null_until_confirmed`, `nullInv_reachable`, `null_series_start`, `null_timeout_regenerates`,
+  `null_never_retried`: nothing but NULL unsolicited responses until one is confirmed;
+* `data_only_enabled`, `data_series_start`, `db_consulted_only_when_enabled`,
+  `enables_change_only_by_20_21`, `no_unsolicited_while_disabled`, `wake_on_update`;
+* `one_outstanding`: while a series awaits its confirm no other series starts;
+* `retries_bounded_unchanged`, `unsolWaitTimeout_spec`: a retry is the same octets, the counter
+  decrements, the series ends at zero;
+* `series_spacing`, `series_end_sets_delay`, `no_series_before_delay`;
+* `read_deferred_not_dropped`, `deferred_*`, `nonread_answered_in_wait`.
 -/
 namespace Dnp3.Props.C14
-open Dnp3
+open Dnp3 Dnp3.Proofs.Frame Dnp3.Proofs.Iin Dnp3.Proofs.Skel Dnp3.Proofs.C14
 
 /-- with unsolicited support disabled nothing unsolicited is ever started -/
 theorem disabled_never_starts (a : Acc) (h : a.1.cfg.unsolicited = false) :
@@ -20,5 +36,284 @@ theorem after_series (a : Acc) :
     (afterUnsolSeries a false false).1.1.unsol = .ready (some (a.1.now + a.1.cfg.rdelay)) := by
   unfold afterUnsolSeries
   simp
+
+
+/-! ## Session theorems -/
+
+/-- **C14.1** (`null_until_confirmed`), per step, for every input, from any state satisfying `NullInv`
+    (all reachable states do, `nullInv_reachable`): the consistency is kept, and `unsol` leaves
+    `nullRequired` only in a step that accepted an unsolicited confirm with the matching sequence
+    number — witnessed by the `unsolConfirmed` callback, the fragment examined being an unsolicited
+    CONFIRM. -/
+theorem null_until_confirmed (env : OEnv) (s : OState) (inp : OInput) (hi : NullInv s) :
+    NullInv (Outstation.step env s inp).1 ∧
+    (s.unsol = .nullRequired →
+      (Outstation.step env s inp).1.unsol = .nullRequired ∨
+      ((∃ q, OOut.cb (.unsolConfirmed q) ∈ (Outstation.step env s inp).2) ∧
+        ∃ pf, StepFrag env s inp pf ∧ IsUnsolConfirm pf)) :=
+  @Dnp3.Proofs.C14.null_until_confirmed env s inp hi
+
+theorem nullInv_reachable (cfg : OCfg) (evMax : Nat) (env : OEnv) (s : OState)
+    (h : Outstation.Reachable cfg evMax env s) : NullInv s :=
+  @Dnp3.Proofs.C14.nullInv_reachable cfg evMax env s h
+
+/-- **C14.1 (a)** while a null response is required, `checkUnsolicited` starts exactly this: an empty
+    unsolicited response (no objects, 4 octets on the wire), flagged null, carrying the current
+    `unsolSeq`, which is advanced; its retry counter is `some 0` (never re-sent: regenerated). -/
+theorem null_series_start (a : Acc) (res : Acc ⊕ (Acc × NextIdle)) (h : checkUnsolicited a = some res)
+    (hu : a.1.cfg.unsolicited = true) (hn : a.1.unsol = .nullRequired) :
+    ∃ a' r' bytes, res = .inl a' ∧
+      a'.1.mode = .unsolWait r' true (some 0) (a.1.now + a.1.cfg.ctimeout) ∧
+      r'.size = 0 ∧ r'.func = 0x82 ∧ r'.ctrl = ⟨true, true, true, true, a.1.unsolSeq⟩ ∧
+      a'.1.unsolSeq = seq4Next a.1.unsolSeq ∧ a'.1.unsol = .nullRequired ∧
+      a'.2 = a.2 ++ [.tx a.1.cfg.master bytes, .cb (.unsolWait a.1.unsolSeq)] ∧
+      bytes.length = 4 ∧ bytes.take 2 = [r'.ctrl.toNat, 0x82] :=
+  @Dnp3.Proofs.C14.null_series_start a res h hu hn
+
+/-- **C14.1 (b)** a null response is never re-sent: when its confirm wait times out the series ends
+    (`unsolTimeout seq false`) and `unsol` stays `nullRequired`, so the next pass regenerates it
+    with the next sequence number. -/
+theorem null_timeout_regenerates (a : Acc) (resp : Resp) :
+    unsolWaitTimeout a resp true (some 0) =
+      finishUnsol (emitCb a (.unsolTimeout resp.ctrl.seq false)) true false ∧
+    (afterUnsolSeries (emitCb a (.unsolTimeout resp.ctrl.seq false)) true false).1.1.unsol = .nullRequired :=
+  @Dnp3.Proofs.C14.null_timeout_regenerates a resp
+
+/-- null responses are never retried: their retry counter is `some 0` (`NullInv`), so the timeout ends the series -/
+theorem null_never_retried (s : OState) (hi : NullInv s) (resp : Resp) (rt : Option Nat) (dl : Nat)
+    (hm : s.mode = .unsolWait resp true rt dl) : rt = some 0 :=
+  @Dnp3.Proofs.C14.null_never_retried s hi resp rt dl hm
+
+/-- **C14.4** (`retries_bounded_unchanged`), as a step: a clock advance reaching the deadline of an
+    unsolicited confirm wait (no fragment pending, no READ deferred, retries left) re-sends `resp`
+    unchanged, decrements the retry counter and re-arms the deadline at `now + ctimeout`;
+    before the deadline nothing happens. -/
+theorem retries_bounded_unchanged (env : OEnv) (s : OState) (ms : Nat) (resp : Resp) (isNull : Bool)
+    (retries : Option Nat) (dl : Nat)
+    (hm : s.mode = .unsolWait resp isNull retries dl) (hp : s.pending = none) :
+    (s.now + ms < dl → Outstation.step env s (.tick ms) = ({ s with now := s.now + ms }, [])) ∧
+    (dl ≤ s.now + ms → s.deferred = none →
+      ∀ retries', (retries = none ∧ retries' = none) ∨ (∃ n, retries = some (n + 1) ∧ retries' = some n) →
+      Outstation.step env s (.tick ms) =
+        ({ s with now := s.now + ms, unsolBuf := writeAt s.unsolBuf 0 (respHeader resp),
+                  mode := .unsolWait resp isNull retries' (s.now + ms + s.cfg.ctimeout) },
+         [.cb (.unsolTimeout resp.ctrl.seq true), .tx s.cfg.master (unsolBytes s resp)])) ∧
+    (dl ≤ s.now + ms → (s.deferred.isSome = true ∨ retries = some 0) →
+      Outstation.step env s (.tick ms) =
+        finishStep (settle 8 (finishUnsol
+          (emitCb ({ s with now := s.now + ms }, []) (.unsolTimeout resp.ctrl.seq false)) isNull false))) :=
+  @Dnp3.Proofs.C14.retries_bounded_unchanged env s ms resp isNull retries dl hm hp
+
+/-- what `unsolWaitTimeout` does, exactly.
+    * a READ is deferred, or the retry counter is `some 0` (always so for null responses): no
+      retransmission, the series ends with `unsolTimeout seq false`;
+    * otherwise `resp` is re-sent unchanged (`repeatUnsolicited`), the counter `some (n+1)` becomes
+      `some n` (`none` = unbounded stays `none`), and the new deadline is `now + ctimeout`. -/
+theorem unsolWaitTimeout_spec (a : Acc) (resp : Resp) (isNull : Bool) (retries : Option Nat) :
+    ((a.1.deferred.isSome = true ∨ retries = some 0) →
+      unsolWaitTimeout a resp isNull retries =
+        finishUnsol (emitCb a (.unsolTimeout resp.ctrl.seq false)) isNull false) ∧
+    (a.1.deferred = none → ∀ retries', (retries = none ∧ retries' = none) ∨ (∃ n, retries = some (n + 1) ∧ retries' = some n) →
+      unsolWaitTimeout a resp isNull retries =
+        .blocked ({ a.1 with unsolBuf := writeAt a.1.unsolBuf 0 (respHeader resp),
+                             mode := .unsolWait resp isNull retries' (a.1.now + a.1.cfg.ctimeout) },
+                  a.2 ++ [.cb (.unsolTimeout resp.ctrl.seq true), .tx a.1.cfg.master (unsolBytes a.1 resp)])) :=
+  @Dnp3.Proofs.C14.unsolWaitTimeout_spec a resp isNull retries
+
+/-- **C14.3** (`one_outstanding`): a step that begins in the unsolicited confirm wait for `resp`
+    (`mode = unsolWait resp …`) — whatever the input —
+    * either emits no new unsolicited response (`Cb.unsolWait` marks the start of one; a retry of the
+      stored response is not one) and is still waiting for the confirmation of the same `resp`
+      (or the task panicked),
+    * or is a disconnect,
+    * or the outputs split as `pre ++ post` with nothing new started in `pre` and the reason the wait
+      ended visible by then: an accepted confirm (`unsolConfirmed`), a timeout without retry
+      (`unsolTimeout _ false`), or the fragment examined being DISABLE_UNSOLICITED. -/
+theorem one_outstanding (env : OEnv) (s : OState) (inp : OInput) (resp : Resp) (isNull : Bool)
+    (rt : Option Nat) (dl : Nat) (hm : s.mode = .unsolWait resp isNull rt dl) :
+    ((∀ o ∈ (Outstation.step env s inp).2, OOut.kind o ≠ .unsolWait) ∧
+      ((∃ rt' dl', (Outstation.step env s inp).1.mode = .unsolWait resp isNull rt' dl') ∨
+        OOut.panic ∈ (Outstation.step env s inp).2)) ∨
+    inp = .cut ∨
+    (∃ pre post, (Outstation.step env s inp).2 = pre ++ post ∧ (∀ o ∈ pre, OOut.kind o ≠ .unsolWait) ∧
+      ((∃ q, OOut.cb (.unsolConfirmed q) ∈ pre) ∨ (∃ q, OOut.cb (.unsolTimeout q false) ∈ pre) ∨
+        ∃ pf, StepFrag env s inp pf ∧ IsDisable pf)) :=
+  @Dnp3.Proofs.C14.one_outstanding env s inp resp isNull rt dl hm
+
+/-- **C14.5** (`series_spacing`), per step: after a data series ended unconfirmed at `t`
+    (`unsol = ready (t + rdelay)`, see `series_end_sets_delay`), no step whose clock is still below
+    `t + rdelay` starts a new series — whatever the input — and the deadline stays armed. -/
+theorem series_spacing (env : OEnv) (s : OState) (inp : OInput) (d : Nat)
+    (hu : s.unsol = .ready (some d)) (hm : NotUW s.mode) (hlt : stepNow s inp < d) :
+    (Outstation.step env s inp).1.unsol = .ready (some d) ∧ NotUW (Outstation.step env s inp).1.mode ∧
+    ∀ o ∈ (Outstation.step env s inp).2, OOut.kind o ≠ .unsolWait :=
+  @Dnp3.Proofs.C14.series_spacing env s inp d hu hm hlt
+
+/-- (a) a data series that ends without confirmation at time `t` arms the retry delay: `unsol = ready (t + rdelay)` -/
+theorem series_end_sets_delay (a : Acc) :
+    afterUnsolSeries a false false =
+      (({ a.1 with unsol := .ready (some (a.1.now + a.1.cfg.rdelay)) }, a.2), .until (a.1.now + a.1.cfg.rdelay)) :=
+  @Dnp3.Proofs.C14.series_end_sets_delay a
+
+/-- (b) until that time `checkUnsolicited` starts nothing (it only reports when to look again) -/
+theorem no_series_before_delay (a : Acc) (d : Nat) (hu : a.1.cfg.unsolicited = true)
+    (hr : a.1.unsol = .ready (some d)) (hlt : a.1.now < d) :
+    checkUnsolicited a = some (.inr (a, .until d)) :=
+  @Dnp3.Proofs.C14.no_series_before_delay a d hu hr hlt
+
+/-- **C14.6** (`read_deferred_not_dropped`): (a) a READ handled in the unsolicited confirm wait is stored in
+    `deferred` (sequence number, source, supported headers) and the wait goes on; (b) `handleDeferredRead`
+    takes it out and answers it with FIR and its own sequence number to its source; (c) when the confirm
+    timeout arrives with a READ deferred, the retry is suppressed, the series ends and the READ is
+    answered in that very step (unless the task panics). -/
+theorem read_deferred_not_dropped :
+    (∀ (a : Acc) (resp : Resp) (isNull : Bool) (f : Frag) (ctrl : AppCtrl) (hs : List ObjHdr) (raw : List Nat),
+      a.1.pending = some f → parseRequest f.data = .request ctrl 1 (.ok hs) raw →
+      (a.1.cfg.anymaster = true ∨ f.src = a.1.cfg.master) → f.broadcast = none →
+      unsolWaitOnFragment a resp isNull =
+        .blocked ({ onLinkActivity { a.1 with pending := none } with
+          deferred := some ⟨f.data, ctrl.seq, f.src, (keptHdrs a.1.cfg.maxReadHeaders hs).2,
+            (keptHdrs a.1.cfg.maxReadHeaders hs).1⟩ }, a.2)) ∧
+    (∀ (a : Acc) (next : NextIdle) (d : Deferred) (res : Acc ⊕ Acc), a.1.deferred = some d →
+      handleDeferredRead a next = some res →
+      ∃ (a' : Acc) (r2 : Resp) (bytes : List Nat) (post : List OOut), (res = .inl a' ∨ res = .inr a') ∧ a'.1.deferred = none ∧
+        a'.2 = a.2 ++ [.tx d.addr bytes] ++ post ∧ bytes.take 2 = [r2.ctrl.toNat, 0x81] ∧
+        r2.ctrl.fir = true ∧ r2.ctrl.seq = d.seq ∧ r2.ctrl.uns = false) ∧
+    (∀ (env : OEnv) (s : OState) (ms : Nat) (resp : Resp) (isNull : Bool) (retries : Option Nat) (dl : Nat)
+      (d : Deferred), s.mode = .unsolWait resp isNull retries dl → s.pending = none → s.deferred = some d →
+      dl ≤ s.now + ms →
+      OOut.panic ∈ (Outstation.step env s (.tick ms)).2 ∨ AnswerIn d (Outstation.step env s (.tick ms)).2) :=
+  @Dnp3.Proofs.C14.read_deferred_not_dropped 
+
+/-- **C14.6 (b)** the only events that change `deferred`: an explicit clear (a superseding fragment
+    handled in the wait, or the end of the deferred READ's own confirm wait), storing a newer READ, and
+    `handleDeferredRead` answering it.  (A disconnect clears it in the step prologue, `cutState`.) -/
+theorem deferred_only_changed_by {pf : Option Frag} {a a' : Acc} (h : Ev pf a a') :
+    a'.1.deferred = a.1.deferred ∨
+    a' = ({ a.1 with deferred := none }, a.2) ∨
+    (∃ f ctrl hs raw, ReqOf pf f ctrl 1 (.ok hs) raw ∧ f.broadcast = none ∧ a' = (deferredSet a.1 f ctrl.seq hs, a.2)) ∨
+    (∃ n d, a.1.deferred = some d ∧ a'.1.deferred = none ∧
+      (handleDeferredRead a n = some (.inl a') ∨ handleDeferredRead a n = some (.inr a'))) :=
+  @Dnp3.Proofs.C14.deferred_only_changed_by pf a a' h
+
+/-- **C14.6 (d)** when the unsolicited series ends (`finishUnsol`, whichever way) with a READ deferred,
+    that READ is answered in the same step — unless the task panics. -/
+theorem deferred_answered_when_series_ends {pf : Option Frag} (n : Nat) (a : Acc) (isNull c : Bool) (d : Deferred)
+    (hp : PendOk pf (afterUnsolSeries a isNull c).1) (hd : a.1.deferred = some d) :
+    OOut.panic ∈ (finishStep (settle n (finishUnsol a isNull c))).2 ∨
+    AnswerIn d (finishStep (settle n (finishUnsol a isNull c))).2 :=
+  @Dnp3.Proofs.C14.deferred_answered_when_series_ends pf n a isNull c d hp hd
+
+/-- **C14.6 (d'), as a step**: a READ was deferred; the confirm timeout arrives (a pending deferred READ
+    suppresses the retry, see `retries_bounded_unchanged`): the READ is answered in that very step. -/
+theorem deferred_read_answered_at_timeout (env : OEnv) (s : OState) (ms : Nat) (resp : Resp) (isNull : Bool)
+    (retries : Option Nat) (dl : Nat) (d : Deferred)
+    (hm : s.mode = .unsolWait resp isNull retries dl) (hp : s.pending = none) (hd : s.deferred = some d)
+    (hle : dl ≤ s.now + ms) :
+    OOut.panic ∈ (Outstation.step env s (.tick ms)).2 ∨ AnswerIn d (Outstation.step env s (.tick ms)).2 :=
+  @Dnp3.Proofs.C14.deferred_read_answered_at_timeout env s ms resp isNull retries dl d hm hp hd hle
+
+/-- **C14.6 (e)** a new non-READ request handled during the wait is answered immediately (same step),
+    whenever its handler yields a response: the response is transmitted to the request's source before
+    `unsolWaitOnFragment` returns (and the wait goes on, except for DISABLE_UNSOLICITED which ends it).
+    It also supersedes a deferred READ (`deferred := none` before the handler runs). -/
+theorem nonread_answered_in_wait (a : Acc) (resp : Resp) (isNull : Bool) (f : Frag) (ctrl : AppCtrl) (func : Nat)
+    (hs : List ObjHdr) (raw : List Nat) (hp : a.1.pending = some f)
+    (hq : parseRequest f.data = .request ctrl func (.ok hs) raw)
+    (hm : a.1.cfg.anymaster = true ∨ f.src = a.1.cfg.master)
+    (hcl : classify (onLinkActivity { a.1 with pending := none }) f ctrl func (.ok hs) = .newNonRead hs)
+    (a4 : Acc) (r : Resp)
+    (hn : handleNonRead ({ onLinkActivity { a.1 with pending := none } with deferred := none }, a.2)
+      func ctrl.seq f.id hs raw = some (a4, some r)) :
+    (writeSolicited a4 f.src r = none ∧ unsolWaitOnFragment a resp isNull = die a4) ∨
+    (∃ a5 r5 bytes, writeSolicited a4 f.src r = some (a5, r5) ∧ a5.2 = a4.2 ++ [.tx f.src bytes] ∧
+      unsolWaitOnFragment a resp isNull =
+        (if func = 21 then
+          finishUnsol ({ a5.1 with lastReq := some ⟨ctrl.seq, f.data, some r5, none⟩ }, a5.2) isNull false
+         else .blocked ({ a5.1 with lastReq := some ⟨ctrl.seq, f.data, some r5, none⟩ }, a5.2))) :=
+  @Dnp3.Proofs.C14.nonread_answered_in_wait a resp isNull f ctrl func hs raw hp hq hm hcl a4 r hn
+
+/-- **C14.2 (a)** when `checkUnsolicited` starts a series in the `ready` state, it is a data series built by
+    `Db.writeUnsolicited` called with exactly the three enable flags, at least one of them set, the
+    retry-delay deadline (if any) passed, and a nonzero event count; the response is not null, carries
+    the current `unsolSeq` and its size covers header + objects. -/
+theorem data_series_start (a a' : Acc) (dl : Option Nat) (h : checkUnsolicited a = some (.inl a'))
+    (hr : a.1.unsol = .ready dl) :
+    a.1.cfg.unsolicited = true ∧ (∀ d, dl = some d → d ≤ a.1.now) ∧ (a.1.en1 || a.1.en2 || a.1.en3) = true ∧
+    (a.1.db.writeUnsolicited a.1.en1 a.1.en2 a.1.en3 (a.1.cfg.unsol - 4)).2.2 ≠ 0 ∧
+    startUnsolSeries ({ afterDbWrite a.1 with unsolSeq := seq4Next a.1.unsolSeq }, a.2)
+      (unsolHeader a.1.unsolSeq (4 + (a.1.db.writeUnsolicited a.1.en1 a.1.en2 a.1.en3 (a.1.cfg.unsol - 4)).2.1.length))
+      false = some a' :=
+  @Dnp3.Proofs.C14.data_series_start a a' dl h hr
+
+/-- **C14.2 (a')** in every other case `checkUnsolicited` does not consult the database: no enable flag
+    set, deadline in the future, null response required, unsolicited unsupported -/
+theorem db_consulted_only_when_enabled (a : Acc) (res : Acc ⊕ (Acc × NextIdle)) (h : checkUnsolicited a = some res)
+    (hc : a.1.cfg.unsolicited = false ∨ a.1.unsol = .nullRequired ∨ (∃ d, a.1.unsol = .ready (some d) ∧ a.1.now < d) ∨
+      (a.1.en1 || a.1.en2 || a.1.en3) = false) (a' : Acc) (hr : res = .inl a' ∨ ∃ n, res = .inr (a', n)) :
+    a'.1.db = a.1.db :=
+  @Dnp3.Proofs.C14.db_consulted_only_when_enabled a res h hc a' hr
+
+/-- **C14.2 (b'), per step**: for every state and input, the class enables change only in a step whose
+    fragment is a well-formed ENABLE_UNSOLICITED (20) or DISABLE_UNSOLICITED (21) request — and a DISABLE
+    can only clear them. -/
+theorem enables_change_only_by_20_21 (env : OEnv) (s : OState) (inp : OInput) :
+    EnOf (Outstation.step env s inp).1 = EnOf s ∨
+    ∃ pf, StepFrag env s inp pf ∧ (IsFunc pf 20 ∨ (IsFunc pf 21 ∧
+      Lowered s.en1 (Outstation.step env s inp).1.en1 ∧ Lowered s.en2 (Outstation.step env s inp).1.en2 ∧
+      Lowered s.en3 (Outstation.step env s inp).1.en3)) :=
+  @Dnp3.Proofs.C14.enables_change_only_by_20_21 env s inp
+
+/-- **C14.2 (c)** (`data_only_enabled`, per step): once all three classes are disabled (and no unsolicited
+    wait is in progress, start-up null response confirmed), no step starts an unsolicited response and
+    the classes stay disabled — until a step whose fragment is ENABLE_UNSOLICITED. -/
+theorem no_unsolicited_while_disabled (env : OEnv) (s : OState) (inp : OInput)
+    (hen : EnOf s = (false, false, false)) (hu : ∃ dl, s.unsol = .ready dl) (hm : NotUW s.mode)
+    (hpf : ∀ pf, StepFrag env s inp pf → ¬ IsFunc pf 20) :
+    EnOf (Outstation.step env s inp).1 = (false, false, false) ∧
+    (∃ dl, (Outstation.step env s inp).1.unsol = .ready dl) ∧ NotUW (Outstation.step env s inp).1.mode ∧
+    ∀ o ∈ (Outstation.step env s inp).2, OOut.kind o ≠ .unsolWait :=
+  @Dnp3.Proofs.C14.no_unsolicited_while_disabled env s inp hen hu hm hpf
+
+/-- **C14.7** (`wake_on_update`): in idle mode (no fragment pending), a database transaction wakes the
+    task (`notified`), and in that same step `checkUnsolicited` is evaluated on the updated database
+    (`afterRequest` begins with it).  With unsolicited enabled, `unsol = ready none` and some class
+    enabled, it starts a series iff `Db.writeUnsolicited` reports a nonzero count — and then the step
+    ends exactly in that series' confirm wait. -/
+theorem wake_on_update (env : OEnv) (s : OState) (items : List TxnItem) (next : NextIdle)
+    (hm : s.mode = .idle next) (hp : s.pending = none)
+    (hu : s.cfg.unsolicited = true) (hr : s.unsol = .ready none) (hen : (s.en1 || s.en2 || s.en3) = true) :
+    Outstation.step env s (.txn items) =
+      finishStep (settle 8 (afterRequest (runPass 63) (wakeAcc s items))) ∧
+    (∀ a', checkUnsolicited (wakeAcc s items) = some (.inl a') ↔
+      ((wakeAcc s items).1.db.writeUnsolicited s.en1 s.en2 s.en3 (s.cfg.unsol - 4)).2.2 ≠ 0 ∧
+      startUnsolSeries ({ afterDbWrite (wakeAcc s items).1 with unsolSeq := seq4Next s.unsolSeq }, (wakeAcc s items).2)
+        (unsolHeader s.unsolSeq (4 + ((wakeAcc s items).1.db.writeUnsolicited s.en1 s.en2 s.en3 (s.cfg.unsol - 4)).2.1.length))
+        false = some a') ∧
+    (∀ a', checkUnsolicited (wakeAcc s items) = some (.inl a') → Outstation.step env s (.txn items) = a') :=
+  @Dnp3.Proofs.C14.wake_on_update env s items next hm hp hu hr hen
+
+/-- **C14.2** (`data_only_enabled`): (a) a data series is built from `Db.writeUnsolicited s.en1 s.en2 s.en3`
+    only with some class enabled, `unsol = ready _`, no retry-delay deadline in the future and a nonzero
+    event count; (b) per step, the enables change only by ENABLE / DISABLE_UNSOLICITED (a DISABLE only
+    clears); (c) with all three disabled no unsolicited response is started until an ENABLE. -/
+theorem data_only_enabled (env : OEnv) (s : OState) (inp : OInput) :
+    (∀ (a a' : Acc) (dl : Option Nat), checkUnsolicited a = some (.inl a') → a.1.unsol = .ready dl →
+      a.1.cfg.unsolicited = true ∧ (∀ d, dl = some d → d ≤ a.1.now) ∧ (a.1.en1 || a.1.en2 || a.1.en3) = true ∧
+      (a.1.db.writeUnsolicited a.1.en1 a.1.en2 a.1.en3 (a.1.cfg.unsol - 4)).2.2 ≠ 0 ∧
+      startUnsolSeries ({ afterDbWrite a.1 with unsolSeq := seq4Next a.1.unsolSeq }, a.2)
+        (unsolHeader a.1.unsolSeq (4 + (a.1.db.writeUnsolicited a.1.en1 a.1.en2 a.1.en3 (a.1.cfg.unsol - 4)).2.1.length))
+        false = some a') ∧
+    (EnOf (Outstation.step env s inp).1 = EnOf s ∨
+      ∃ pf, StepFrag env s inp pf ∧ (IsFunc pf 20 ∨ (IsFunc pf 21 ∧
+        Lowered s.en1 (Outstation.step env s inp).1.en1 ∧ Lowered s.en2 (Outstation.step env s inp).1.en2 ∧
+        Lowered s.en3 (Outstation.step env s inp).1.en3))) ∧
+    (EnOf s = (false, false, false) → (∃ dl, s.unsol = .ready dl) → NotUW s.mode →
+      (∀ pf, StepFrag env s inp pf → ¬ IsFunc pf 20) →
+      EnOf (Outstation.step env s inp).1 = (false, false, false) ∧
+      (∃ dl, (Outstation.step env s inp).1.unsol = .ready dl) ∧ NotUW (Outstation.step env s inp).1.mode ∧
+      ∀ o ∈ (Outstation.step env s inp).2, OOut.kind o ≠ .unsolWait) :=
+  @Dnp3.Proofs.C14.data_only_enabled env s inp
+
 
 end Dnp3.Props.C14
